@@ -27,7 +27,7 @@ from coqbridge import COQ, fl
 
 PROP = "C12"
 THEOREM_FILE = "Props/C12.v"
-CHECKER = "Corr.C12"
+CHECKER = "Corr.C12All"
 SHARD = 25
 RULE = ("sdepth: interleaved stretching arrays (dyadic exact stream, N in {1,2,4,8,16}; general floats, N in 1..60), "
         "H 1 m..5000 m as 1-D/2-D variable bathymetry, hc in [0, min H] (Vtransform 1) or >= 0 (Vtransform 2), both "
@@ -273,6 +273,11 @@ def gen_cases(ctx):
     for i in range(8 * f):  # the lookup as the forcing module performs it, step after step, over uneven bathymetry
         out.append({"k": "forcing", "seed": rng.randrange(10**9), "N": rng.choice([2, 3, 5, 8, 16]), "vt": rng.choice([1, 2]),
                     "P": rng.randint(3, 8), "steps": rng.randint(2, 4)})
+    import vert_float
+
+    for fdesc in vert_float.gen_vert_cases(rng, 120 if ctx.quick else 3000):
+        if fdesc["k"] == "z2s":
+            out.append({"k": "fz2s", "f": fdesc})
     return out
 
 
@@ -703,6 +708,10 @@ def eval_forcing(desc, ctx):
         mods = {"time": tk, "state": st, "grid": g}
         X = rng.uniform(1.6, imax - 2.6, P); Y = rng.uniform(1.6, jmax - 2.6, P)
         Z = rng.uniform(-5.0, 450.0, P)  # from above the surface to below the deepest bottom
+        # a third of the particles sits exactly on a cell boundary in x, another third in y (half-integer coordinates:
+        # the cell is the one numpy's round-half-to-even gives for the GLOBAL coordinate, as Grid.depth / atsea use it)
+        X[: P // 3] = np.floor(X[: P // 3]) + 0.5
+        Y[P // 3: 2 * (P // 3)] = np.floor(Y[P // 3: 2 * (P // 3)]) + 0.5
         st.append(X=X, Y=Y, Z=Z)
         fo = Forcing(mods, filename=str(path))
         mods["forcing"] = fo
@@ -729,6 +738,14 @@ def eval_forcing(desc, ctx):
 
 def eval_case(desc, ctx):
     k = desc["k"]
+    if k == "fz2s":
+        # the floating-point model of the level search (Model/VerticalFloat.v): the compiled z2s_kernel, K and the
+        # weight bit for bit (leading -9: Corr/C12All -> Corr/VertF), 1 <= K <= N-1 and 0 <= A <= 1 EXACTLY
+        import vert_float
+
+        r = vert_float.eval_vert_case(desc["f"])
+        r["ints"] = None if r.get("ints") is None else [-9] + [int(x) for x in r["ints"]]
+        return {k_: r[k_] for k_ in ("ints", "oracle", "nontrivial", "kind", "observed")}
     if k == "sdepth":
         return eval_sdepth(desc)
     if k == "stretch":
